@@ -74,8 +74,9 @@ def showForm : Form → String
   | .z .zstd => "z"
   | .other => "x"
 
+/-- upper-case shape tokens mark a call made on a clone of the client: no effect in the model -/
 def shapeOf (s : String) : Option Shape :=
-  match s with
+  match s.toLower with
   | "u" => some .unary
   | "ss" => some .serverStreaming
   | "cs" => some .clientStreaming
@@ -203,6 +204,8 @@ def parseSrv (ts : List String) : Option SrvCase := do
   if ts ≠ [] then none
   let h ← (if kind = "reply" then some (Handler.reply n (dis ≠ 0) md)
            else if kind = "fail" then some (Handler.fail n) else none)
+  -- upper-case route tokens mark a `Grpc` value that has already served a call: no effect
+  let route := route.toLower
   if route ≠ "d" ∧ route ≠ "c" then none
   pure { route, acc, snd, req := { shape, encVals, accVals, frames }, h }
 
